@@ -83,6 +83,48 @@ def limit_scenarios(tier):
     return out
 
 
+def repl_limits():
+    """the same limits reached from the REPL (its lines are compiled through another entry point): records of the
+    `limit` kind for CodecTrace"""
+    import os
+    import re
+    import subprocess
+    core.build_binary()
+    recs = []
+    sessions = []
+    for n in (256, 257):
+        body = " ".join("let v%d = %d;" % (i, i % 7) for i in range(n))
+        sessions.append(("repl-locals=%d" % n, "DefineLocal", 1, n - 1, "fn f() { %s v%d + v0 }" % (body, n - 1), (n - 1) % 7))
+    for n in (255, 256):
+        ps = ",".join("p%d" % i for i in range(n))
+        args = ",".join(str(i % 5) for i in range(n))
+        sessions.append(("repl-call-args=%d" % n, "Call", 1, n, "fn f(%s) { p0 + p%d }\nlet r = f(%s)" % (ps, n - 1, args), (n - 1) % 5))
+    for tag, op, k, needed, text, want in sessions:
+        # call-args: the definition is fine, the call is the line that holds the big operand
+        lines = text.split("\n")
+        probe = 'puts("R=", f())' if "locals" in tag else 'puts("R=", r)'
+        script = "\n".join(lines) + "\n" + probe + "\n"
+        e = dict(os.environ)
+        e["P2SH_VERIF_REPL"] = "1"
+        try:
+            p = subprocess.run([core.P2SH], input=script.encode(), stdout=subprocess.PIPE, stderr=subprocess.PIPE, timeout=300, env=e)
+            out, err, rc = p.stdout.decode("utf8", "replace"), p.stderr.decode("utf8", "replace"), p.returncode
+        except subprocess.TimeoutExpired:
+            out, err, rc = "", "timeout", None
+        m = re.search(r"R=(-?\d+)", out)
+        if rc != 0:
+            how = "panic" if rc == 101 else "rc=%s" % rc
+        elif "compile error" in err:
+            how = "compile"
+        elif "Runtime error" in err:
+            how = "rterror"
+        else:
+            how = "ok"
+        recs.append({"id": "lim-" + tag, "kind": "limit", "opname": op, "opn": vmtrace.opc()[op], "k": k, "needed": needed, "how": how,
+                     "result": int(m.group(1)) if m else -1, "want": want, "allowed": ["ok"], "msg": err[-200:]})
+    return recs
+
+
 def run(rep, tier, seed):
     core.build_harness()
     # (a) spec-level theorem
@@ -116,10 +158,12 @@ def run(rep, tier, seed):
                 result = v[0] + 256 * v[1] + 65536 * v[2] + 16777216 * v[3]
         recs.append({"id": "lim-" + t, "kind": "limit", "opname": op, "opn": vmtrace.opc()[op], "k": k, "needed": needed, "how": r.get("how"),
                      "result": result, "want": want, "allowed": allowed, "msg": r.get("msg") or ""})
+    rl = repl_limits()
+    recs += rl
     verdicts, tres = core.tlc_validate("CodecTrace", recs, workers=2)
     rep.add_tlc(tres)
     rep.cov["traces_validated_against_impl"] += len(recs)
-    rep.cov["evaluations"] += total + len(scen)
+    rep.cov["evaluations"] += total + len(scen) + len(rl)
     byid = {r["id"]: r for r in recs}
     for rid, v in verdicts.items():
         if v.get("drift"):
@@ -187,7 +231,8 @@ def run(rep, tier, seed):
     rep.cov["rule"] = ("codec: every opcode x every operand tuple of its widths through the real make/read_operands "
                        "(counted in codec_tuples_swept_through_real_encoder), per-opcode totals and a stratified sample "
                        "validated by TLC; limits: programs at limit-1 / limit / limit+1 for locals, call arguments, "
-                       "captured variables, constant pool (thorough: array elements, jump distance); VM fetch: "
+                       "captured variables, constant pool, forward-jump distance (thorough: array elements), locals / call arguments "
+                       "also from REPL lines; VM fetch: "
                        "instruction traces of random programs and loop nests; distinct = sample encodings + scenarios + traces")
     rep.cov["exhaustive"] = False
     rep.sample({"codec": sweep["sample"][1], "limit": {k: recs[-1][k] for k in ("id", "needed", "how")} if scen else None})
